@@ -68,6 +68,10 @@ FIXED = [
  ("C13", "split_tet_from_face_center reads cell adjacency from the current cells", "second volume operation of an editing block used the face->cells table computed on entry: wrong cell split (volume changed) or KeyError"),
  ("C13", "quads are not split along a diagonal that is already an edge", "triangulating a quad whose B-D diagonal is already an edge of the mesh produced an edge with 3-4 incident faces (non-manifold result)"),
  ("C04", "medit export writes all edges when no face or cell is exported", "save(surface, 'x.mesh', ignore_elements={'faces'}) wrote only the hard edges (none): the wireframe reloaded as a point cloud"),
+ ("C06", "every built mesh owns the storage of its vertex coordinates", "meshes shared coordinate storage with their sources: from_arrays / corner-point generators wrote through to caller arrays, merge results moved their inputs (same mesh merged twice moved twice), the open ring's seam vertex moved twice, extract_boundary_of_volume and dual_mesh(circumcenter) moved their source, integer coordinates made translate raise"),
+ ("C06", "extract_boundary_of_surface copies the coordinates", "transforming the polyline returned by extract_boundary_of_surface moved the surface it was extracted from"),
+ ("C06", "copy(mesh, copy_connectivity=True) copies the connectivity", "copy(mesh, copy_connectivity=True) shared the source's connectivity object (answers for the source after the copy is edited)"),
+ ("C06", "scale_xyz without an origin scales about (0,0,0)", "scale_xyz(mesh, fx, fy, fz) without origin scaled about the first vertex instead of (0,0,0)"),
  ("C14", "circumcenter lies in the plane", "geometry.circumcenter dropped the normal offset of the triangle's plane (dual_mesh circumcenter mode put vertices in the wrong plane)"),
 ]
 
